@@ -497,3 +497,54 @@ def length_mismatch_ldata_frames(valid_apdus: list[bytes]):
         return bytes([code, len(add)]) + add + bytes([c1, c2]) + src.to_bytes(2, "big") + dst.to_bytes(2, "big") + bytes([length]) + tpdu
 
     return build()
+
+
+# ---------------------------------------------------------------------------
+# A_Sec (Data Secure) APDUs inside L_Data frames - every Security Control Field value
+
+APCI_SEC = 0x3F1
+ASEC_APDU_LENGTHS = (12, 13, 14, 20)  # octets incl. the two APCI octets; 13 is the shortest a parser accepts (SCF + 6 seq + 4 MAC)
+
+
+def asec_frame(code: int, group: bool, scf: int, apdu_len: int, tpci: int = 0x00, fill: int = 0x11, addinfo: bytes = b"") -> bytes:
+    """L_Data frame carrying an A_Sec APDU (APCI 0x3F1) of `apdu_len` octets with the given SCF octet."""
+    rest = bytes((fill + i) & 0xFF for i in range(max(0, apdu_len - 3)))
+    apdu = bytes([APCI_SEC >> 8, APCI_SEC & 0xFF]) + (bytes([scf]) if apdu_len >= 3 else b"") + rest
+    apdu = apdu[:apdu_len]
+    tpdu = bytes([(tpci & 0xFC) | apdu[0]]) + apdu[1:]
+    c1 = 0xBC if len(tpdu) - 1 <= 15 else 0x3C
+    c2 = 0xE0 if group else 0x60
+    dst = b"\x09\x01" if group else b"\x11\x05"
+    return bytes([code, len(addinfo)]) + addinfo + bytes([c1, c2]) + b"\x11\x01" + dst + bytes([len(tpdu) - 1]) + tpdu
+
+
+def asec_scf_sweep_frames() -> list[bytes]:
+    """All 256 SCF values x A_Sec APDU lengths 12/13/14/20 x the three L_Data message codes x {group, individual}
+    destination (deterministic). Covers reserved algorithms (bits 6..4 in 2..7) and reserved services (bits 2..0)."""
+    out = []
+    for code in L_DATA_CODES:
+        for group in (True, False):
+            for n in ASEC_APDU_LENGTHS:
+                for scf in range(256):
+                    out.append(asec_frame(code, group, scf, n))
+    return out
+
+
+def asec_ldata_frames():
+    """Generated variant: any SCF (biased to reserved algorithm / service codes), APDU length 3..40, data TPCI octets,
+    optional additional info."""
+    scf_s = st.one_of(
+        u8,
+        st.builds(lambda t, a, b, sv: t << 7 | a << 4 | b << 3 | sv, st.integers(0, 1), st.integers(2, 7), st.integers(0, 1), st.integers(0, 7)),
+        st.builds(lambda t, a, b, sv: t << 7 | a << 4 | b << 3 | sv, st.integers(0, 1), st.integers(0, 1), st.integers(0, 1), st.sampled_from((1, 4, 5, 6, 7))),
+    )
+
+    @st.composite
+    def build(draw):
+        code = L_DATA_CODES[draw(st.integers(0, 2))]
+        group = draw(st.booleans())
+        tp = draw(st.sampled_from((0x00, 0x00, 0x04) if group else (0x00, 0x40, 0x7C)))
+        n = draw(st.one_of(st.sampled_from(ASEC_APDU_LENGTHS), st.integers(3, 40)))
+        return asec_frame(code, group, draw(scf_s), n, tpci=tp, fill=draw(u8), addinfo=draw(_ADDINFO))
+
+    return build()
